@@ -16,6 +16,18 @@ CHECKS = {
    text="Proof (Coq): any Unicode whitespace around the canonical text of a well-formed (epoch, upstream, revision) parses to exactly the triple; each rejection class of the property (non-numeric, negative, oversized, empty epoch; nothing after the colon; non-digit first character; character outside the upstream or revision alphabet; embedded or only whitespace) is rejected for every string of that shape; every accepted string round-trips through String (C03.v: 16 theorems, closed). Tie: version.Parse / String / MarshalControl / UnmarshalControl / MarshalText / UnmarshalText / encoding/json against the model on grammar renderings x Unicode whitespace, all short strings over a 14-symbol alphabet, single/double-edit near misses and raw bytes (valid and invalid UTF-8).",
    note="Trusted: as C01. The model states Go's TrimSpace/IsSpace UTF-8 behaviour as 'a space encoding starts at a non-continuation byte' (argument in V11.v), validated by the tie. Error messages are not compared.",
    technique="Coq proof over a hand-written model + differential correspondence against version.Parse/String", ref="5/C03"),
+ "C04": dict(
+   text="Proof (Coq): every field of the grammar - relations separated by commas, alternatives by '|', each name[:arch] with one version clause, one architecture list and any number of profile groups in any order, or a ${substvar} - with any run of blanks between any two tokens parses to exactly its relations, alternatives and clause values in order (C04_parse_render, for the model's concrete fuel); a second version or architecture clause is rejected by Parse for the first alternative of a field; every malformed class of the property is rejected by the scanner that meets it, in any context (local facts). Tie: dependency.Parse vs the model on bounded-exhaustive small ASTs x layouts, random ASTs x layouts (expected structure computed independently by the driver), the eight malformed classes, single-edit corruptions and raw bytes.",
+   note="Trusted: as C01. Partial: the lifting of the malformed classes to Parse is proved for two classes and the first alternative only; the others are local facts plus the tie. Model D3 is a function-by-function transliteration of parser.go with explicit fuel 4*len+8 (C04_total: it never runs out).",
+   technique="Coq proof (parser o renderer composition with an eventually-enough-fuel predicate) + differential correspondence against dependency.Parse", ref="5/C04"),
+ "C05": dict(
+   text="Proof (Coq): for every byte string the parser accepts, the rendering is accepted and parses to the same value, and rendering is a one-step fixpoint (C05_dep_roundtrip, C05_fixpoint, for all inputs, unless the value contains the architecture spelled '--'); parse/render/parse of any architecture name gives the same triple unless it is the triple of empty strings (C05_arch_roundtrip). Tie: Parse/String/re-Parse and the MarshalControl/UnmarshalControl interface on accepted strings from grammar renderings, their mutations and raw bytes; all architecture names of 1-4 dash-separated tokens over a 9-token vocabulary (exhaustive).",
+   note="Trusted: as C01. Known finding (class blank-arch): the architecture '--' parses to the zero triple, which String() prints as ''; the theorems carry blank_arch d = false and C05_blank_arch_refuted records the witness.",
+   technique="Coq proof (parser-output invariant + canonical-layout composition) + differential correspondence against Parse/String", ref="5/C05"),
+ "C06": dict(
+   text="Proof (Coq): Arch.Is equals the property's matching rule on its domain and is symmetric there; ArchSet.Matches is (some entry matches) xor negated with the empty list admitting everything; GetPossibilities is, per relation and in order, the first non-substvar alternative whose list admits the architecture; SatisfiedBy holds iff the number parses and Compare has the sign the operator asks for (C06.v: 5 theorems, generic in the type of component names, closed). Tie: all 65x65 pairs of the abstract domain (exhaustive) against both the model and an independent statement of the rule, real names through ParseArch, all lists of <=3 entries x negation x targets, random dependency fields x architectures, (op, N, V) over a version pool incl. equal-but-different and unparsable N and unknown operators.",
+   note="Trusted: as C01. The model compares component names as opaque values; the tie instantiates them with byte strings. SatisfiedBy composes the C03 parser and the C01 comparison.",
+   technique="Coq proof (finite case analysis, generic in the name type) + exhaustive correspondence on the abstract domain", ref="5/C06"),
 }
 NOT_YET = {}
 
